@@ -604,3 +604,83 @@ def fallthrough(prog, floor=90):
     if nsw < floor:
         raise AnalysisBroken('CASE-FALLTHROUGH: only %d operand-type switches' % nsw)
     return RuleResult('CASE-FALLTHROUGH', obs, floor, {'switches': nsw})
+
+
+def dec_cover(prog, floor=25):
+    """DEC-COVER: every opcode-table row the decoder can select has a handler for its operand type.
+
+    For a decoder disasm_X whose search is `(opcode & table_T[n].mask) == table_T[n].opcode` followed by a switch on
+    table_T[n].type: a row r whose type has no case label (and is not compared against anywhere in disasm/X.cpp) is
+    reached with opcode word r.opcode unless an earlier row matches that word first.  Such a row exists in the table, the
+    assembler may emit it, and the decoder falls into `default` / out of the switch: the instruction is listed as ??? or
+    with the text of nothing."""
+    from nk import tables
+    obs = []
+    ndec = 0
+    for fn in sorted(prog.fns.values(), key=lambda f: f.file):
+        if not fn.blocks or not fn.file.startswith('disasm/') or not fn.name.startswith('disasm_'):
+            continue
+        bytab = {}
+        for sw, txt in _switches(fn):
+            bytab.setdefault((_table(txt), txt.split('.')[-1]), []).append(sw)
+        for (t, col), sl in sorted(bytab.items()):
+            if col not in ('type', 'op_type', 'operand_type'):
+                continue
+            try:
+                rws, fields, _ = tables.rows(prog, t)
+            except (AnalysisBroken, KeyError):
+                continue
+            if 'opcode' not in fields or 'mask' not in fields:
+                continue
+            # the standard search test must be present in the function
+            std = False
+            for n in fn.nodes.values():
+                if n['k'] == 'BinaryOperator' and n.get('op') in ('==', '!='):
+                    txts = [show(x) for x in kids(n)]
+                    if any('%s[' % t in x and '.mask' in x and '&' in x for x in txts) and \
+                            any(x.startswith('%s[' % t) and x.endswith('.opcode') for x in txts):
+                        std = True
+            if not std:
+                continue
+            ndec += 1
+            labels = set()
+            for f2 in prog.fns.values():
+                if f2.file != fn.file:
+                    continue
+                for n in f2.nodes.values():
+                    if n['k'] == 'CaseStmt' and 'v' in n:
+                        labels.add(n['v'])
+                    if n['k'] == 'BinaryOperator' and n.get('op') in ('==', '!='):
+                        l, r = kids(n)
+                        for a, b in ((l, r), (r, l)):
+                            if const(b) is not None and show(a).endswith('.' + col):
+                                labels.add(const(b))
+            live = [(i, r) for i, r in enumerate(rws) if r and tables.strval(r.get('instr') or r.get('name')) is not None]
+            missing = {}
+            for i, r in live:
+                ty = const(r.get(col))
+                if ty is None or ty in labels:
+                    continue
+                op, mk = const(r.get('opcode')), const(r.get('mask'))
+                if op is None or mk is None:
+                    continue
+                first = None
+                for j, r2 in live:
+                    o2, m2 = const(r2.get('opcode')), const(r2.get('mask'))
+                    if o2 is not None and m2 is not None and (op & m2) == o2:
+                        first = j
+                        break
+                if first is not None and const(rws[first].get(col)) in labels:
+                    continue                # an earlier (handled) row takes this word
+                missing.setdefault(show(r[col]), []).append(tables.strval(r.get('instr') or r.get('name')))
+            if not missing:
+                obs.append(Ob('DEC-COVER', fn.file, fn.line, fn.q, 'table:%s' % t, DISCHARGED, '',
+                              'every first-matching row of %s (%d rows) has a case for its %s in %s' % (t, len(live), col, fn.file)))
+            for ty, names in sorted(missing.items()):
+                obs.append(Ob('DEC-COVER', fn.file, fn.line, fn.q, '%s:%s' % (t, ty), VIOLATED,
+                              'operand type %s (%s) of %s has no case in %s and no earlier row takes its opcode word: the '
+                              'decoder finds the row and prints nothing / ??? for an instruction the table defines' % (
+                                  ty, ', '.join(names[:6]), t, fn.q)))
+    if ndec < floor:
+        raise AnalysisBroken('DEC-COVER: only %d decoders with the standard table search' % ndec)
+    return RuleResult('DEC-COVER', obs, floor, {'decoders': ndec})
